@@ -107,7 +107,9 @@ func (o jsonObject) pathIdent(pathObject jsonObject, options []Option) [8]byte {
 		}
 	}
 	e, _ := NewJsonNode(id)
-	return e.hashCode([]Option{})
+	// Hash like the path object was hashed (set.patch: ident(options)),
+	// so that array values in a key are read the same way on both sides.
+	return e.hashCode(options)
 }
 
 func (o jsonObject) Diff(n JsonNode, options ...Option) Diff {
